@@ -363,12 +363,104 @@ def s08_network(ctx):
     return res
 
 
-STREAMS = [s08_weights, s08_params, s08_generated, s08_network]
+def s08_generated_linedata(ctx):
+    """translator validation: the REGENERATED column cache of LineData (compiled into gen_c08) vs the real class, getters called in random order on
+    frames with and without pre-existing (stale / user) columns of the cache's names"""
+    import_fractopo()
+    import geopandas as gpd
+    import numpy as np
+    from shapely.geometry import LineString
+
+    from fractopo.analysis.line_data import LineData
+    from fractopo.general import determine_set
+
+    res = StreamResult("S08-generated-linedata", rule="regenerated LineData column cache (Lean, compiled) vs the real class: 1..6 axis-parallel lines (exact lengths and azimuths), boundary counts "
+                       "in {0,1,2} (rarely 3: ValueError; or none at all: the AssertionError-after-store of length_array), each of the five cache columns pre-existing with "
+                       "probability 1/4 (stale values), 3..6 getter calls in random order with repeats; compared: every returned array or exception and the set of columns "
+                       "afterwards; non-trivial = some column pre-exists")
+    if ctx.gen is None:
+        res.note = "gen_c08 not built (a generated module is broken): skipped"
+        res.skipped["generated_driver_not_built"] = 1
+        return res
+    rng = rng_for(ctx.seed, "S08ld")
+    ranges, names = ((0.0, 50.0), (50.5, 130.0), (130.5, 180.0)), ("a", "b", "c")
+    PROP = {"az": "azimuth_array", "set": "azimuth_set_array", "nw": "length_array_non_weighted", "w": "length_boundary_weights", "len": "length_array"}
+    COL = {"pre_length": "length", "pre_azimuth": "azimuth", "pre_set": "azimuth_set", "pre_w": "boundary_weight", "pre_nw": "length non-weighted"}
+    cases = []
+    for _ in range(budget(ctx.tier, 250, 4000)):
+        n = rng.randint(1, 6)
+        geoms, lengths, azimuths = [], [], []
+        for i in range(n):
+            ln = rng.randint(1, 64) / 4
+            if rng.random() < 0.5:
+                geoms.append(LineString([(10.0 * i, 0.0), (10.0 * i + ln, 0.0)])); azimuths.append(90.0)
+            else:
+                geoms.append(LineString([(10.0 * i, 0.0), (10.0 * i, ln)])); azimuths.append(0.0)
+            lengths.append(ln)
+        r = rng.random()
+        counts = [] if r < 0.08 else [rng.choice([0, 1, 2]) if rng.random() < 0.97 else 3 for _ in range(n)]
+        pre = {}
+        if rng.random() < 0.25:
+            pre["pre_length"] = [rng.randint(0, 400) / 8 for _ in range(n)]
+        if rng.random() < 0.25:
+            pre["pre_azimuth"] = [rng.choice([10.0, 60.25, 140.5, 50.25, 179.0]) for _ in range(n)]
+        if rng.random() < 0.25:
+            pre["pre_set"] = [rng.choice(["a", "zz", "-1"]) for _ in range(n)]
+        if rng.random() < 0.25:
+            pre["pre_w"] = [rng.choice([0, 1, 2, 5]) for _ in range(n)]
+        if rng.random() < 0.25:
+            pre["pre_nw"] = [rng.randint(0, 400) / 8 for _ in range(n)]
+        order = [rng.choice(list(PROP)) for _ in range(rng.randint(3, 6))]
+        cases.append((geoms, lengths, azimuths, counts, pre, order))
+    reqs = []
+    for geoms, lengths, azimuths, counts, pre, order in cases:
+        azs = sorted(set(azimuths) | set(pre.get("pre_azimuth", [])))
+        table = ";".join(f"{rat(a)}:{determine_set(a, ranges, names, True)}" for a in azs)
+        req = (f"glinedata order={','.join(order)} lengths={','.join(rat(v) for v in lengths)} counts={','.join(str(c) for c in counts)} "
+               f"azimuths={','.join(rat(v) for v in azimuths)} detset={table}")
+        for k, v in pre.items():
+            req += f" {k}=" + ",".join((str(x) if k in ("pre_set", "pre_w") else rat(x)) for x in v)
+        reqs.append(req)
+    resps = ctx.gen.parallel(reqs)
+
+    def fmt(g, v):
+        if g == "set":
+            return "set:" + ",".join(str(x) for x in v)
+        if g == "w":
+            return "w:" + ",".join(str(int(x)) for x in v)
+        return f"{g}:" + ",".join(rat(float(x)) for x in np.asarray(v, dtype=float))
+
+    for (geoms, lengths, azimuths, counts, pre, order), req, resp in zip(cases, reqs, resps):
+        res.evaluations += 1
+        res.nontrivial += int(bool(pre))
+        data = {COL[k]: v for k, v in pre.items()}
+        frame = gpd.GeoDataFrame(data, geometry=geoms)
+        ld = LineData(_line_gdf=frame, using_branches=False, azimuth_set_ranges=ranges, azimuth_set_names=names, area_boundary_intersects=np.array(counts, dtype="int64"))
+        out = []
+        for g in order:
+            try:
+                out.append(fmt(g, getattr(ld, PROP[g])))
+            except (ValueError, AssertionError) as e:
+                out.append(f"{g}:err:{type(e).__name__}")
+            res.distribution[g] = res.distribution.get(g, 0) + 1
+        present = [c.replace(" ", "_") for c in ("length", "azimuth", "azimuth_set", "boundary_weight", "length non-weighted") if c in frame.columns]
+        want = f"out={'|'.join(out)} cols={','.join(present)}"
+        if resp.strip() != want:
+            res.disagreements.append(Disagreement("S08-generated-linedata", {"stream": "S08-generated-linedata", "request": req}, resp.strip(), want, None,
+                                                  "regenerated LineData column cache (Lean) and the Python class disagree"))
+    res.samples = [{"request": reqs[0][:300], "response": resps[0][:300]}] if reqs else []
+    return res
+
+
+STREAMS = [s08_weights, s08_params, s08_generated, s08_network, s08_generated_linedata]
 
 
 def replay(ctx, stream, case):
     if stream == "S08-generated":
         r = s08_generated(ctx)
+        return r.disagreements[0] if r.disagreements else None
+    if stream == "S08-generated-linedata":
+        r = s08_generated_linedata(ctx)
         return r.disagreements[0] if r.disagreements else None
     import_fractopo()
     if stream == "S08-network":
